@@ -23,7 +23,9 @@ def accuracy_on_data(Y, I_data, y_data, e_trunc=None):
         float: the relative error.
 
     Note:
-        If I_data or y_data is not provided, the function will return -1.
+        If I_data or y_data is not provided, or if all the reference values
+        y_data are zero (the relative error is undefined), the function will
+        return -1.
 
     """
     if I_data is None or y_data is None:
@@ -36,7 +38,10 @@ def accuracy_on_data(Y, I_data, y_data, e_trunc=None):
         Y = teneva.truncate(Y, e_trunc)
 
     y = teneva.get_many(Y, I_data)
-    return np.linalg.norm(y - y_data) / np.linalg.norm(y_data)
+    y_norm = np.linalg.norm(y_data)
+    if y_norm == 0.:
+        return -1.
+    return np.linalg.norm(y - y_data) / y_norm
 
 
 def cache_to_data(cache={}):
